@@ -58,6 +58,10 @@ def one_case(args):
         shutil.rmtree(work, ignore_errors=True); return None
     open(p, 'wb').write(new)
     ops = ['open'] + ['get %s -' % k3lib.khex(k) for k in allkeys] + ['scan -', 'rscan -']
+    # seeks to present keys: an iterator that skips a damaged block must not come to rest on a later entry with status OK
+    seek_keys = [k for k in allkeys if k in content and len(k) > 0]
+    seek_keys = seek_keys[::max(1, len(seek_keys) // 16)][:16]
+    ops += ['iter - S%s' % k3lib.khex(k) for k in seek_keys]
     try:
         r = subprocess.run([k2, work] + ['%s=%s' % kv for kv in sorted(opts.items())], input=('\n'.join(ops) + '\n').encode(),
                            capture_output=True, timeout=60)
@@ -90,6 +94,16 @@ def one_case(args):
             got_map[k] = v
             if expect is not None and expect.get(k) != v:
                 res['problems'].append(dict(where, kind='wrong-answer', detail='get %s returned %s, correct %s' % (a[1], c['ret'], expect.get(k))))
+        elif a[0] == 'iter':
+            body, status = c['ret'].rsplit(' status=', 1)
+            if status != '0':
+                res['errors'] += 1; res['detected'] = True
+            elif expect is not None:
+                want_k = a[2][1:]
+                got_k = body.split(':', 1)[0] if body not in ('!', '') else None
+                k = bytes.fromhex(want_k)
+                if got_k != want_k or (body.split(':', 1)[1] if ':' in body else None) != expect.get(k):
+                    res['problems'].append(dict(where, kind='silent-wrong-seek', detail='seek(%s) came to rest on %s with status OK; the key is present with value %s' % (want_k, body[:80], expect.get(k))))
         else:
             body, status = c['ret'].rsplit(' status=', 1)
             ents = k2lib.parse_view(body)
